@@ -109,16 +109,45 @@ def queue_rules(r, ctx, crate, adt, qfield, tag, regex):
         te = pop.try_edges(pf[0])          # `events.pop_front()?`
         if te:
             some_edge = te[0]
-    inc = [(i, line, describe_rvalue(pop, rv)) for i, j, p, rv, line in pop.assigns() if p[1] and describe_place(pop, p).endswith("head_epoch")]
-    r.check(some_edge is not None and len(inc) == 1 and inc[0][2].startswith("wrapping_add(") and inc[0][2].endswith(", 1)") and pop.dominates(some_edge, inc[0][0]) and pop.must_pass([some_edge], {inc[0][0]})[0], "%s/pop/head_epoch+1" % tag, pf[0].loc(),
-            "every popped entry advances head_epoch by one", "pop does not advance head_epoch exactly once per popped entry")
+    # effects may sit in pop itself or in a closure of pop that pop calls (`let mut release = |key| { .. }`): a closure call counts as the
+    # effect when the closure performs it on every path
+    def closure_sites(pred):
+        out = set()
+        for c in pop.calls:
+            if c.via_name in ("call", "call_mut", "call_once") and c.defpath.startswith(pop.defpath + "::{closure"):
+                for cb in crate.closures_of(pop.defpath):
+                    if cb.defpath == c.defpath and pred(cb):
+                        out.add(c.block)
+        return out
+
+    def incs(b):
+        return [(i, line, describe_rvalue(b, rv)) for i, j, p, rv, line in b.assigns() if describe_place(b, p).endswith("head_epoch") and not describe_rvalue(b, rv).endswith("head_epoch")]
+
+    def is_plus_one(d):
+        return d.startswith("wrapping_add(") and d.endswith(", 1)")
+    inc = incs(pop)
+    inc_sites = {i for i, _, d in inc if is_plus_one(d)} | closure_sites(lambda cb: any(is_plus_one(d) and cb.must_pass([0], {i})[0] for i, _, d in incs(cb)) and all(is_plus_one(d) for _, _, d in incs(cb)))
+    other = [d for _, _, d in inc if not is_plus_one(d)]
+    once = not any(a != b_ and pop.reaches(a, {b_}) for a in inc_sites for b_ in inc_sites)
+    okp = some_edge is not None and bool(inc_sites) and not other and all(pop.dominates(some_edge, x) for x in inc_sites)
+    ok1, wit = pop.must_pass([some_edge], inc_sites) if okp else (False, None)
+    r.check(okp and ok1 and once, "%s/pop/head_epoch+1" % tag, pf[0].loc(), "every popped entry advances head_epoch by one",
+            "pop does not advance head_epoch exactly once per popped entry (%s): the epochs recorded for the entries still queued no longer point at their slots" % (
+                "a popped entry can leave without the advance: path %s" % wit if okp and not ok1 else "advanced twice on a path" if okp and not once else "advance sites %s, other writes %s" % (sorted(inc_sites), other)))
     rms = [c for c in pop.calls if c.name == "remove" and describe_operand(pop, c.args[0]).endswith(".epoch_map")]
-    vs = set()
     for c in rms:
-        for d, l, _ in guards(pop, c.block):
-            if d.startswith("disc(") and ("pop_front" in d or "entry" in d) and l not in ("Some", "None"):
-                vs |= set(l.split("|"))
         r.check("key" in describe_operand(pop, c.args[1]) or describe_operand(pop, c.args[1]).endswith(".0") or "k" == describe_operand(pop, c.args[1]), "%s/pop/remove-by-key" % tag, c.loc(), "the popped entry's key is removed from the index")
+    rm_sites = {c.block for c in rms} | closure_sites(lambda cb: any(c.name == "remove" and describe_operand(cb, c.args[0]).endswith("epoch_map") and cb.must_pass([0], {c.block})[0] for c in cb.calls))
+    vs = set()
+    for si in pop.switches_on(lambda p, si: True):
+        if si.get("kind") != "disc":
+            continue
+        ve = pop.variant_edges(si["block"])
+        if not ve or not {"Update", "Remove"} <= set(ve):
+            continue
+        for v in ("Update", "Remove"):
+            if rm_sites and pop.must_pass([ve[v]], rm_sites)[0]:
+                vs.add(v)
     r.check(vs >= {"Update", "Remove"}, "%s/pop/keyed=>index-removed" % tag, pf[0].loc(), "popping an Update or Remove deletes its index entry", "index entry is only removed for %s" % sorted(vs))
 
 
@@ -158,26 +187,28 @@ def run(ctx):
                 raise AnchorMissing("MapStoreInner::%s: no content mutation" % nm)
             pushes = [c for c in b.calls if c.via_name == "push" and describe_operand(b, c.args[0]).endswith(".queue")]
             prevs = [(i, line, describe_rvalue(b, rv)) for i, j, p, rv, line in b.assigns() if p[1] and describe_place(b, p).endswith("previous")]
+            ins_blocks = {c.block for c in muts if c.via_name == "insert"}
             for m in muts:
                 op = want[m.via_name]
                 start = b.succ[m.block]
                 trig = "always"
+                discharge = set()
+                extra = set()
                 if m.via_name == "remove":
-                    # obligation only on the Some edge of the result (nothing to report when the key was absent),
-                    # and in transform_entry a removed entry may be re-inserted (then the insert carries the obligation)
-                    sw = b.result_switches(m)
-                    ve = b.variant_edges(sw[0]["block"]) if sw else None
-                    if ve and "Some" in ve:
-                        start = [ve["Some"]]
-                        trig = "on Some"
-                    else:
-                        r.bad("%s/remove-result-tested" % nm, m.loc(), "result of content.remove is not examined")
-                        continue
-                ok, wit = b.must_pass(start, {c.block for c in pushes})
+                    # obligation only when an entry was really removed (nothing to report when the key was absent): a path is excused by taking
+                    # the None edge of a match on the removed value - however that value reached the match - and in transform_entry a removed entry
+                    # may be re-inserted (then the insert carries the obligation)
+                    for sb, ve in b.option_edges_from(m):
+                        if ve and "None" in ve:
+                            discharge.add((sb, ve["None"]))
+                    extra = {x for x in ins_blocks if b.reaches(m.block, {x})}
+                    trig = "when an entry was removed"
+                ok, wit = b.must_pass_edges(start, {c.block for c in pushes} | extra, discharge)
                 r.check(ok and bool(pushes), "%s/%s=>queue.push" % (nm, m.via_name), m.loc(), "content.%s (%s) is followed by queue.push on every path" % (m.via_name, trig),
                         "content.%s can complete without queuing an operation: replicas never learn of the change (%s)" % (m.via_name, wit))
-                ok2, wit2 = b.must_pass(start, {i for i, _, _ in prevs})
-                r.check(ok2 and bool(prevs), "%s/%s=>previous" % (nm, m.via_name), m.loc(), "previous := Some(event) on every path", "content.%s without recording previous: the lifecycle handler is not given the old entry" % m.via_name)
+                ok2, wit2 = b.must_pass_edges(start, {i for i, _, _ in prevs} | extra, discharge)
+                r.check(ok2 and bool(prevs), "%s/%s=>previous" % (nm, m.via_name), m.loc(), "previous := Some(event) on every path (%s)" % trig,
+                        "content.%s without recording previous (%s): the lifecycle handler is not run for this change" % (m.via_name, wit2))
             # operation variant agrees with the event variant on each path
             for c in pushes:
                 d = describe_operand(b, c.args[1])
